@@ -25,7 +25,7 @@ RULE = ("CSR width in {8,16,32,64} x Wishbone width a power-of-two multiple <= 6
         "select and back-to-back transfers. Distinct = canonical JSON.")
 BUDGET = {"quick": (16, 400), "thorough": (16, 8000)}
 ESSENTIAL = ["variant:A", "variant:B", "ratio1", "ratio2", "ratio4", "ratio8", "partial_select", "select_none",
-             "back_to_back", "drop_stb", "cyc_only", "refused_geometry", "upper_half_address", "B:multi_granule_reg"]
+             "back_to_back", "drop_stb", "cyc_only", "refused_geometry", "upper_half_address", "B:multi_granule_reg", "B:register_above_csr_address_256"]
 ASSUMPTIONS = [
     "the Wishbone initiator holds its request stable until it sees ack and is otherwise free (classic cycles)",
     "variant B: read data of a non-first chunk is compared only while that register's snapshot is known to be intact (conservative model)",
@@ -44,7 +44,7 @@ def _spec(draw, tier):
     if variant == "A":
         spec["csr_aw"] = draw(st.integers(1, 8))
     else:
-        spec["lay"] = draw(gens.csr_layout(max_regs=4, dws=(csr_dw,), overlaps=False))
+        spec["lay"] = draw(gens.csr_layout(max_regs=4, dws=(csr_dw,), overlaps=False, high=True))
     return spec
 
 
@@ -99,6 +99,7 @@ def check(spec, stats):
         words = sorted({a // ratio for r in regs for a in range(r.start, r.end)})
         pool = words + words + [w for w in (0, (1 << wb.addr_width) - 1, (1 << wb.addr_width) // 2) if 0 <= w < (1 << wb.addr_width)]
         stats.label("B:multi_granule_reg", any(r.width > csr_dw for r in regs))
+        stats.label("B:register_above_csr_address_256", any(r.start > 256 for r in regs))
     cycles, transfers = wbplan.flatten(spec["items"], ratio, wb.addr_width, eff_wb, seed, pool)
     for k, tr in enumerate(transfers):
         full = (1 << ratio) - 1
